@@ -16,6 +16,7 @@ MODULES = [
     "contracts.auth",
     "contracts.web",
     "contracts.base",
+    "contracts.db",
 ]
 for m in MODULES:
     importlib.import_module(m)
@@ -28,7 +29,16 @@ if os.path.exists(_kf):
 
 COMMON_ASSUMPTIONS = ["A1", "A6", "A7"]
 
+_TB = ["z3 SMT solver (cvc5 for string queries z3 leaves open)", "pyvc VC generator (/verif/pyvc)", "CPython ast module"]
 PROPERTIES = {
+    "C03": {"level": "proof", "trusted_base": _TB, "assumptions": ["EV", "SQL", "JSON"]},
+    "C05": {"level": "proof", "trusted_base": _TB, "assumptions": ["EV", "A4"]},
+    "C06": {"level": "proof", "trusted_base": _TB, "assumptions": ["EV", "SQL", "WS", "JSON", "A4"]},
+    "C07": {"level": "proof", "trusted_base": _TB, "assumptions": ["EV", "SQL"]},
+    "C08": {"level": "proof", "trusted_base": _TB, "assumptions": ["EV", "SQL"]},
+    "C09": {"level": "proof", "trusted_base": _TB, "assumptions": ["EV", "SQL"]},
+    "C13": {"level": "proof", "trusted_base": _TB, "assumptions": ["WS", "JSON", "A4"]},
+    "C19": {"level": "proof", "trusted_base": _TB, "assumptions": ["WS", "JSON", "A4"]},
     "C15": {"level": "proof", "trusted_base": ["z3 SMT solver", "pyvc VC generator (/verif/pyvc)", "CPython ast module"], "assumptions": ["A3", "EV"]},
     "C14": {"level": "proof", "trusted_base": ["z3 SMT solver", "pyvc VC generator (/verif/pyvc)", "CPython ast module"], "assumptions": ["EV"]},
     "C16": {
